@@ -231,7 +231,7 @@ fn run_part(
                     }
                 }
                 let run_seed = mix(seed, world.name(), i);
-                let scenario = world.generate(run_seed, tier);
+                let scenario = world.generate_at(seed, i, tier);
                 let out = execute_isolated(&world, &scenario, false);
                 local.runs += 1;
                 local.steps += out.steps;
@@ -338,7 +338,7 @@ pub fn run_check(spec: &CheckSpec, tier: Tier, seed: u64) -> CheckResult {
         // Samples: re-run a few non-trivial runs with the log kept.
         for i in agg.sample_indices.iter().take(2) {
             let run_seed = mix(seed, world.name(), *i);
-            let sc = world.generate(run_seed, tier);
+            let sc = world.generate_at(seed, *i, tier);
             let out = execute_isolated(world, &sc, true);
             let mut lines = out.log_lines.clone();
             if lines.len() > 120 {
@@ -554,9 +554,9 @@ pub fn determinism(world: &Arc<dyn World>, seed: u64, runs: u64, tier: Tier) -> 
             if i >= runs {
                 break;
             }
-            let run_seed = mix(seed, world.name(), i);
-            let sc = world.generate(run_seed, tier);
-            let sc2 = world.generate(run_seed, tier);
+            let _run_seed = mix(seed, world.name(), i);
+            let sc = world.generate_at(seed, i, tier);
+            let sc2 = world.generate_at(seed, i, tier);
             let a = execute_isolated(&world, &sc, false);
             let b = execute_isolated(&world, &sc2, false);
             results.lock().unwrap().insert(i, (a.log_hash, b.log_hash, sc == sc2, a.steps));
